@@ -662,7 +662,8 @@ def optimize(dsk, keys, **kwargs):
 
     if config.get("optimization.fuse.delayed"):
         dsk = ensure_dict(dsk)
-        dsk = fuse_linear_task_spec(dsk, keys, **kwargs)
+        # keys are nested when several collections are computed together
+        dsk = fuse_linear_task_spec(dsk, set(flatten(keys)), **kwargs)
 
     if not isinstance(dsk, HighLevelGraph):
         dsk = HighLevelGraph.from_collections(id(dsk), dsk, dependencies=())
